@@ -996,3 +996,118 @@ def g5v_cleanup_agreement(prog):
         if not fr:
             r.viol('G5v', 'columns/no-cleanup', f.loc(), 'columns read before an error are never freed')
     return r
+
+
+SELECTING = ('filter', 'filter_map', 'take', 'skip', 'take_while', 'skip_while', 'step_by', 'rev', 'flat_map', 'flatten', 'chain', 'zip', 'peekable', 'scan', 'map_while')
+REORDERING = ('sort', 'sort_by', 'sort_by_key', 'sort_unstable', 'sort_unstable_by', 'sort_unstable_by_key', 'sort_by_cached_key', 'reverse', 'rev', 'swap', 'rotate_left', 'rotate_right', 'dedup', 'retain', 'select_nth_unstable')
+
+
+@rule('X4', props=['C06', 'C16', 'C11'], floor=3, configs=('all',))
+def x4_written_sequences_are_whole_and_in_row_order(prog):
+    """What the writers enumerate is everything, in storage order — in both encodings, because row position *is* the
+    location index the allocator is rebuilt from: (a) `Serialize for Archetypes` hands `collect_seq` an iterator over
+    all tables of `self` (no selecting adaptor, the same on both outcomes of is_human_readable); (b) `SerializeRows`
+    emits rows 0, 1, .. of `0..length` in that order (the j-th element written is row j); (c)
+    `Archetype::entity_identifiers`, which the allocator writer/reader enumerate to recover row numbers, yields the
+    identifier column rebuilt with `self.length` in column order (no sort/reverse, no collected copy)."""
+    r = Result()
+    S = pathsem.strip_refs
+    # (a)
+    w = sel(prog, 'Archetypes', ('serde::Serialize',), 'serialize')
+    if w is None:
+        r.viol('X4', 'archetypes/missing', '-', 'Serialize for Archetypes not found')
+    else:
+        r.inst('Archetypes::serialize')
+        E = pathsem.analyse(prog, w, max_paths=5000)
+        me = ('p', 1, w.body.local_name(1) or '')
+        bad = None
+        n = 0
+        for p in E.paths:
+            if p.ended != 'return':
+                continue
+            seqs = p.calls(lambda e: e['name'] in ('collect_seq', 'serialize_seq', 'collect_map') and 'serde' in e['path'])
+            if len(seqs) != 1:
+                bad = bad or 'expected one sequence container per path (found %d)' % len(seqs)
+                continue
+            n += 1
+            src = seqs[0]['vals'][1] if len(seqs[0]['vals']) > 1 else None
+            root, kinds = pathsem.iter_chain(src) if src is not None else (None, ())
+            if src is None or not pathsem.mentions(root if root is not None else src, lambda t: t == me):
+                bad = bad or 'the sequence written is not an iteration over self'
+            elif any(k in SELECTING for k in kinds) or p.calls(lambda e: e['name'] in REORDERING):
+                bad = bad or 'the tables are filtered, truncated or reordered before being written (%s): a table left out (an empty one, say) makes the round trip unequal to the original' % [k for k in kinds if k in SELECTING]
+        if bad or E.truncated or not n:
+            r.viol('X4', 'archetypes/not-all-tables', w.loc(), bad or 'not analysable')
+    # (b)
+    w = sel(prog, 'SerializeRows', ('serde::Serialize',), 'serialize')
+    if w is None:
+        r.viol('X4', 'rows/missing', '-', 'SerializeRows writer not found')
+    else:
+        r.inst('SerializeRows::serialize')
+        E = pathsem.analyse(prog, w, max_paths=5000)
+        bad = None
+        n = 0
+        li = None
+        adt = prog.adts.get('archetype::Archetype')
+        if adt:
+            li = [x['name'] for x in adt['variants'][0]['fields']].index('length')
+        for p in E.paths:
+            if p.ended not in ('return', 'cutoff'):
+                continue
+            elems = p.calls(lambda e: e['name'] == 'serialize_element')
+            if p.calls(lambda e: e['name'] in REORDERING):
+                bad = bad or 'rows are reordered before being written'
+            rngs = set()
+            for a_, v in p.conds:
+                if isinstance(a_, tuple) and a_[0] in ('next', 'nonempty', 'consumed', 'exhausted'):
+                    root, kinds = pathsem.iter_chain(a_[1])
+                    if isinstance(root, tuple) and root[0] == 'agg' and str(root[1]).startswith('core::ops::Range'):
+                        rngs.add(root)
+                        if any(k in SELECTING for k in kinds):
+                            bad = bad or 'the row range is filtered or reordered'
+                    elif elems:
+                        bad = bad or 'rows are enumerated from something other than the range 0..length (a collected or sorted list of rows): the j-th row written must be row j'
+            for rg in rngs:
+                lo, hi = rg[4]
+                if lo != ('c', 0) or not (li is not None and pathsem.is_field_of(S(hi), 'archetype::Archetype', li)):
+                    bad = bad or 'the row loop does not run over 0..length'
+            for j, e in enumerate(elems):
+                n += 1
+                val = e['vals'][1] if len(e['vals']) > 1 else None
+                row = None
+                if isinstance(val, tuple) and val[0] == 'agg' and 'SerializeRow' in str(val[1]):
+                    ra = prog.adts.get(val[1])
+                    names = [x['name'] for x in ra['variants'][0]['fields']] if ra else []
+                    if 'index' in names:
+                        row = val[4][names.index('index')]
+                if row is None:
+                    bad = bad or 'cannot see which row is written'
+                    continue
+                L = pathsem.lin(row)
+                is_elem = isinstance(S(row), tuple) and S(row)[0] == 'elem'
+                if not is_elem and not (L.is_const() and L.const == j):
+                    bad = bad or 'the %d-th element written is row %s, not row %d' % (j, pathsem.tstr(row)[:50], j)
+        if bad or E.truncated or not n:
+            r.viol('X4', 'rows/not-in-row-order', w.loc(), bad or 'not analysable')
+    # (c)
+    fs = [f for f in prog.fns.values() if f.path == 'archetype::Archetype::<R>::entity_identifiers']
+    if len(fs) != 1:
+        r.viol('X4', 'entity_identifiers/missing', '-', 'Archetype::entity_identifiers not found')
+    else:
+        f = fs[0]
+        r.inst('Archetype::entity_identifiers')
+        E = pathsem.analyse(prog, f)
+        me = ('p', 1, f.body.local_name(1) or '')
+        bad = None
+        rets = [p for p in E.paths if p.ended == 'return']
+        for p in rets:
+            root, kinds = pathsem.iter_chain(p.ret)
+            if p.calls(lambda e: e['name'] in REORDERING) or any(k in SELECTING for k in kinds):
+                bad = bad or 'identifiers are reordered or filtered: consumers enumerate them to number the rows'
+            elif p.calls(lambda e: e.get('consumer') or e['name'] in ('collect', 'to_vec', 'to_owned')):
+                bad = bad or 'identifiers are copied into another collection before being yielded'
+            elif not (isinstance(root, tuple) and pathsem.mentions(root, lambda t: t == me) and pathsem.mentions(root, lambda t: isinstance(t, tuple) and t[0] == 'call' and t[1].rsplit('::', 1)[-1] in ('from_raw_parts', 'from_raw_parts_mut'))):
+                bad = bad or 'the iterator is not over the identifier column rebuilt from self'
+        if bad or E.truncated or not rets:
+            r.viol('X4', 'entity_identifiers/not-in-row-order', f.loc(), bad or 'not analysable')
+    return r
